@@ -11,9 +11,17 @@ DevAsIs == {"RestoreRaceOnStartup", "BootstrapUnderSnapshot", "BootcheckNeverHit
 DevNever == {"BootcheckNeverHits"}
 DevSnapNever == {"BootstrapUnderSnapshot", "BootcheckNeverHits"}
 
-ScnAll == [bak : BOOLEAN, boot : BOOLEAN, cursor : BOOLEAN]
-ScnNoCursor == [bak : BOOLEAN, boot : BOOLEAN, cursor : {FALSE}]
-ScnBak == [bak : {TRUE}, boot : {TRUE}, cursor : {FALSE}]
-ScnCursor == [bak : {FALSE}, boot : BOOLEAN, cursor : {TRUE}]
-ScnSafe == [bak : {FALSE}, boot : BOOLEAN, cursor : {FALSE}]
+\* drv: the creating context is still open when the workers start (only without a backup
+\* file: a context that is open on the database would itself have restored the backup)
+ScnPlain == [bak : BOOLEAN, boot : BOOLEAN, cursor : BOOLEAN, drv : {FALSE}]
+ScnDrv == [bak : {FALSE}, boot : BOOLEAN, cursor : BOOLEAN, drv : {TRUE}]
+ScnAll == ScnPlain \cup ScnDrv
+ScnNoCursor == [bak : BOOLEAN, boot : BOOLEAN, cursor : {FALSE}, drv : {FALSE}]
+ScnBak == [bak : {TRUE}, boot : {TRUE}, cursor : {FALSE}, drv : {FALSE}]
+ScnCursor == [bak : {FALSE}, boot : BOOLEAN, cursor : {TRUE}, drv : {FALSE}]
+ScnSafe == [bak : {FALSE}, boot : BOOLEAN, cursor : {FALSE}, drv : BOOLEAN]
+\* lifetimes: contexts close and open at any moment, with and without the creating context
+ScnLife == [bak : {FALSE}, boot : BOOLEAN, cursor : BOOLEAN, drv : BOOLEAN]
+ScnLifeNoCursor == [bak : {FALSE}, boot : BOOLEAN, cursor : {FALSE}, drv : BOOLEAN]
+DevTidy == {"BootcheckNeverHits", "CloseRemovesSideFiles"}
 =============================================================================
